@@ -2354,6 +2354,9 @@ impl Node {
             );
         }
 
+        // the fee just counted must survive a restart
+        self.persister.update_node(&self.get_id(), &*state).expect("node persistence failure");
+
         Ok(())
     }
 
